@@ -86,6 +86,16 @@ impl<F: FixedChannelRegion> FixedChannelPlan<F> {
     pub fn get_max_payload_length(datarate: DR, repeater_compatible: bool, dwell_time: bool) -> u8 {
         F::get_max_payload_length(datarate, repeater_compatible, dwell_time)
     }
+
+    /// The uplink data rate of the 500 kHz channels 64..71: DR4 in US915, DR6 in AU915.
+    fn dr_500khz() -> DR {
+        (0..8u8)
+            .find(|&dr| {
+                matches!(&F::datarates()[dr as usize], Some(d) if d.bandwidth == Bandwidth::_500KHz)
+            })
+            .map(DR::from)
+            .unwrap_or(DR::_4)
+    }
 }
 
 #[cfg(lora_rs_verif)]
@@ -204,7 +214,7 @@ impl<F: FixedChannelRegion> RegionHandler for FixedChannelPlan<F> {
                 let dr = if channel < 64 {
                     DR::_0
                 } else {
-                    DR::_4
+                    Self::dr_500khz()
                 };
                 (dr, channel)
             }
@@ -218,7 +228,7 @@ impl<F: FixedChannelRegion> RegionHandler for FixedChannelPlan<F> {
                     let dr = if channel < 64 {
                         DR::_0
                     } else {
-                        DR::_4
+                        Self::dr_500khz()
                     };
                     (dr, channel)
                 // Alternatively, we will ask JoinChannel logic to determine a channel from the
